@@ -11,3 +11,4 @@ import BlackIt.Drv.Cal
 import BlackIt.Model.Checkpoint
 import BlackIt.Model.RLProtocol
 import BlackIt.Drv.RL
+import BlackIt.Model.Samplers
